@@ -1,4 +1,7 @@
 import Sftp.Driver.C17
+import Sftp.Driver.C09
+import Sftp.Driver.C10Path
+import Sftp.Driver.Codec
 /-
   `sftpmodel`: line-protocol driver for the executable models.
   One case per input line (`op arg…`), one output line per case.
@@ -6,7 +9,7 @@ import Sftp.Driver.C17
 open Sftp
 
 def allOps : List (String × (List String → String)) :=
-  Sftp.Driver.C17.ops
+  Sftp.Driver.C17.ops ++ Sftp.Driver.C09.ops ++ Sftp.Driver.C10Path.ops ++ Sftp.Driver.Codec.ops
 
 def step (line : String) : String :=
   match (line.trimAscii.toString.splitOn " ").filter (· ≠ "") with
